@@ -71,10 +71,11 @@ pub fn into_bytes_incircuit_biguint() {
     }
     #[cfg(not(kani))]
     {
-        // native: the real thing (a one-instruction program compiled by the real circuit synthesis);
-        // a BigUint loaded with type BigUint(8 * l) has ceil(8l / 8) = l bytes... the real limb count
-        // decides; see scenarios::zkir_into_bytes_biguint
-        if crate::scenarios::zkir_into_bytes_biguint(8 * l.max(1) as u32, n) {
+        // native: the real thing. The counterexample says "n exceeds the number of bytes the gadget
+        // returns by d = n - l"; a BigUint(64) has fewer than 64 bytes whatever the limb layout, so the
+        // program `load BigUint(64); into_bytes(64 + d)` (valid per the documentation of IntoBytes:
+        // "BigUint for any n") is in the same situation. It is compiled by the real circuit synthesis.
+        if n > l && crate::scenarios::zkir_into_bytes_biguint(64, 64 + (n - l)) {
             panic!("into_bytes_incircuit panicked");
         }
     }
